@@ -11,7 +11,7 @@ import (
 
 // the functions translated in write-back mode
 var writeBackFuncs = map[string]bool{"updateValuesForKeyPath": true, "updateValue": true, "updateValueForKey": true, "Map.UpdateValuesForPath": true,
-	"prevValueByPath": true, "remove": true, "renameKey": true, "Map.Remove": true, "Map.RenameKey": true, "parentPath": true, "Map.SetValueForPath": true}
+	"prevValueByPath": true, "remove": true, "renameKey": true, "Map.Remove": true, "Map.RenameKey": true, "parentPath": true, "Map.SetValueForPath": true, "addNewVal": true}
 
 type aliasOrigin struct {
 	parent *lvar
@@ -44,6 +44,12 @@ func (t *fnTr) writeBackStr(lv *lvar) string {
 			}
 		case "lens":
 			out += "let " + p.name + " := " + o.key + " " + lv.name + " in "
+		case "root":
+			// the cursor: the root is rebuilt from it by its put-back function
+			out += "let " + p.name + " := " + lv.putVar.name + " " + lv.name + " in "
+			return out
+		case "listidx":
+			out += "let " + p.name + " := lset " + p.name + " " + o.key + " " + boxByKind(lv) + " in "
 		case "asmap", "aslist":
 			out += "let " + p.name + " := " + boxByKind(lv) + " in "
 		case "same":
